@@ -70,6 +70,10 @@ def pow_(a, b):
 
 def div_(a, b):
     ta, tb = type(a), type(b)
+    if (ta is complex or tb is complex) and ta in (int, float, bool, Fraction, complex) and tb in (int, float, bool, Fraction, complex):
+        if b == 0:
+            return a / b
+        return alg.const(a) / alg.const(b)
     if ta in (int, float, bool, Fraction) and tb in (int, float, bool, Fraction):
         if b == 0:
             return a / b  # let python raise
